@@ -212,6 +212,28 @@ def many_errors_cases(ctx):
     return cases
 
 
+def list_partial_dict_cases(ctx):
+    """directed: every element-list form with two or more concrete elements, a dict schema among them at every position,
+    against values whose dict members are PARTIAL (substitution accepts a partial dict for a dict element; the element must
+    then still be that dict schema narrowed — not a fresh exact schema of the partial value)"""
+    from d42 import schema
+    user = schema.dict({"id": schema.int.min(1), "name": schema.str.len(1, 8)})
+    full, part = {"id": 1, "name": "bob"}, {"id": 1}
+    cases = []
+    bodies = [([schema.int, user], [7, part]), ([user, schema.int], [part, 7]), ([user, user], [part, {"name": "x"}]),
+              ([schema.int, user, schema.str], [7, part, "s"]), ([schema.int, user], [7, full])]
+    for body, val in bodies:
+        for els, v in ((list(body), val), (body + [...], val + [0]), (body + [...], val), ([...] + body, [0] + val), ([...] + body, val),
+                       ([...] + body + [...], [0] + val + [0]), ([...] + body + [...], val), ([...] + body, [{"id": 2}, 5] + val)):
+            try:
+                sc = schema.list(list(els))
+            except Exception:  # noqa: BLE001
+                continue
+            cases.append(SubCase(sc, None, v, "list-partial-dict"))
+            cases.append(SubCase(schema.dict({"xs": sc}), None, {"xs": v}, "list-partial-dict"))
+    return cases
+
+
 def list_form_cases(ctx):
     """directed: every list form with 1..3 body elements against short value sequences enumerated exhaustively over a
     small member universe that includes members `from_native` cannot convert and relaxed dicts with extra keys"""
